@@ -70,6 +70,17 @@ REDIS_THEOREMS = {
 }
 
 
+RABBIT_MODULE = "RepidProofs.Props.Rabbit"
+RABBIT_THEOREMS = {
+    "C01": ["rabbit_ack_removes", "rabbit_nack_dead_letters", "rabbit_reject_origin", "rabbit_requeue_window_witness",
+            "rabbit_nack_nonnormal_witness"],
+    "C03": ["rabbit_requeue_window_witness"],
+    "C05": ["expiry_not_early", "expiry_not_late", "head_blocks", "expire_step_due", "rabbit_head_of_line_witness"],
+    "C12": ["onMessage_spec", "rabbit_no_expired_handover", "rabbit_dead_letters_retrievable"],
+    "C15": ["insert_after_equal_or_higher", "fifo_two"],
+}
+
+
 def theorem_names(pid: str) -> list[str]:
     f = LEAN / "RepidProofs" / "Props" / f"{pid}.lean"
     if not f.exists():
@@ -152,6 +163,12 @@ def _run(pid: str, thorough: bool) -> dict:
         rcr, outr = _sh(["lake", "build", REDIS_MODULE])
         log += outr
         redis_ok = rcr == 0
+    rabbit_names = [f"Repid.RabbitProofs.{n}" for n in RABBIT_THEOREMS.get(pid, [])]
+    rabbit_ok = True
+    if rabbit_names:
+        rcb, outb = _sh(["lake", "build", RABBIT_MODULE])
+        log += outb
+        rabbit_ok = rcb == 0
     undischarged: dict[str, str] = {}
     axioms: dict[str, list[str]] = {}
     audit_dir = LEAN / ".lake" / "audit"
@@ -159,7 +176,9 @@ def _run(pid: str, thorough: bool) -> dict:
     audit = audit_dir / f"Audit_{pid}.lean"
     if rc == 0:
         audit.write_text(f"import {module}\n" + (f"import {REDIS_MODULE}\n" if redis_names and redis_ok else "") +
-                         "".join(f"#print axioms {n}\n" for n in names + (redis_names if redis_ok else [])))
+                         (f"import {RABBIT_MODULE}\n" if rabbit_names and rabbit_ok else "") +
+                         "".join(f"#print axioms {n}\n" for n in names + (redis_names if redis_ok else []) +
+                                 (rabbit_names if rabbit_ok else [])))
         rc2, out2 = _sh(["lake", "env", "lean", str(audit)])
         log += out2
         axioms = parse_axioms(out2)
@@ -180,6 +199,11 @@ def _run(pid: str, thorough: bool) -> dict:
         if not redis_ok:
             for n in redis_names:
                 undischarged[n] = "Props/Redis.lean does not build: " + outr[-600:]
+    if rabbit_names:
+        names = names + rabbit_names
+        if not rabbit_ok:
+            for n in rabbit_names:
+                undischarged[n] = "Props/Rabbit.lean does not build: " + outb[-600:]
     for n in names:
         if n in undischarged:
             continue
